@@ -180,6 +180,13 @@ def r1(ctx):
                 if inner is None and isinstance(e, Ite):
                     # sky sizes: Angle / Quantity to_string(unit='deg') of value or value/2
                     inner = _to_string_arg(e)
+                    from ..vg import mentions_name
+                    for a_ in walk_terms(e):
+                        if isinstance(a_, App) and a_.name == 'apply' and a_.args and isinstance(a_.args[0], App) \
+                                and a_.args[0].name == 'attr:to_string' and not mentions_name(a_, 'prec'):
+                            probs.append(f'{t["field"]}: one of the ways the size is printed ({show(a_, 100)}) does not use the '
+                                         'requested precision')
+                            break
                 if inner is None or not is_num(inner):
                     raise AnalysisError('C09.R1', construct, f'size string for {t["field"]} not understood: {show(e, 160)}')
                 base = sym(f'region.{t["field"]}', positive=True)
@@ -188,8 +195,11 @@ def r1(ctx):
                     halved.add(t['field'])
                     # the reader doubles the number: to keep the full axis within half a unit of the requested precision
                     # the semi-axis needs (at least) one more decimal
-                    txt = show(e, 3000)
-                    if 'prec + 1' not in txt and 'prec + 2' not in txt:
+                    # (every way the value can be printed: Angle, plain Quantity, plain number)
+                    arms = [x for x in walk_terms(e) if isinstance(x, App) and x.name in ('apply', 'fstring', 'fmt')
+                            and (x.name != 'apply' or (x.args and isinstance(x.args[0], App) and x.args[0].name == 'attr:to_string'))]
+                    arms = arms or [e]
+                    if any('prec + 1' not in show(a_, 3000) and 'prec + 2' not in show(a_, 3000) for a_ in arms):
                         probs.append(f'{t["field"]} is written as a semi-axis with the requested number of decimals; doubled on '
                                      'reading, the axis is only good to one full unit of the precision (1.01 at precision 2 comes '
                                      'back as 1.02)')
